@@ -135,6 +135,8 @@ func runC11x(c c11Case, info *c11Info) *vstat.Failure {
 	matching := int64(0)
 	go func() {
 		defer close(feedDone)
+		// a case that fails closes the line channel while lines are still being fed
+		defer func() { _ = recover() }()
 		<-feedStart
 		lineWindow[0] = seq.Load()
 		for i := 0; i < c.Lines; i++ {
